@@ -49,17 +49,19 @@ Section Sequence.
   Variable M : machine P C.
   Variable mode : emode.
   Variable spec : bytes -> list (nres P).
+  Variable G : bytes -> Prop.
   Variable R : C -> bytes -> nat -> Prop.
-  Hypothesis OK : consumer_ok M spec R.
+  Variable D : C -> bytes -> Prop.
+  Hypothesis OK : consumer_ok_rel M spec G R D.
 
   Lemma spec_prefix_nth : forall d x k e, nth_error (spec d) k = Some e -> nth_error (spec (d ++ x)) k = Some e.
   Proof.
-    intros d x k e H. destruct (ok_mono _ _ _ OK d x) as [tl E]. rewrite E.
+    intros d x k e H. destruct (okr_mono _ _ _ _ _ OK d x) as [tl E]. rewrite E.
     rewrite nth_error_app1; auto. apply nth_error_Some. congruence.
   Qed.
 
   Lemma spec_prefix_len : forall d x, length (spec d) <= length (spec (d ++ x)).
-  Proof. intros d x. destruct (ok_mono _ _ _ OK d x) as [tl E]. rewrite E, app_length. lia. Qed.
+  Proof. intros d x. destruct (okr_mono _ _ _ _ _ OK d x) as [tl E]. rewrite E, app_length. lia. Qed.
 
   Lemma stream_of_data : forall ch dt o, ch <> [] -> stream_of (TData ch dt :: o) = ch ++ stream_of o.
   Proof. intros [|b ch] dt o H; [congruence|reflexivity]. Qed.
@@ -79,25 +81,27 @@ Section Sequence.
   Definition rloop_post (d0 : bytes) (k : nat) (c' : C) (e' : bool) (rest : bytes) (r : rres P) : Prop :=
     exists d', d' ++ (if e' then [] else rest) = d0 /\
       match r with
-      | RecvAborted => e' = true /\ R c' d' k /\ k = length (spec d')
-      | RecvTimeout | RecvRaised _ => e' = false /\ R c' d' k /\ k = length (spec d')
+      | RecvAborted => e' = true /\ D c' d' /\ k = length (spec d')
+      | RecvTimeout | RecvRaised _ => e' = false /\ D c' d' /\ k = length (spec d')
       | _ => e' = false /\ exists ev, ev <> RStop /\ r = of_nres ev /\ nth_error (spec d') k = Some ev /\ R c' d' (S k)
       end.
 
   Lemma rloop_inv : forall fuel t c o el d k c' e' o' r el',
       oracle_size o < fuel ->
-      R c d k -> k = length (spec d) ->
+      D c d -> k = length (spec d) -> G (d ++ stream_of o) ->
       rloop M mode fuel t c o el = (c', e', o', r, el') ->
       rloop_post (d ++ stream_of o) k c' e' (stream_of o') r.
   Proof.
-    induction fuel; intros t c o el d k c' e' o' r el' Hf HR Hk H; [lia|].
+    induction fuel; intros t c o el d k c' e' o' r el' Hf HR Hk HG H; [lia|].
     simpl in H. destruct o as [|it o1].
     - inversion H; subst. exists d. simpl. split; [reflexivity|]. auto.
     - destruct it as [ch dt| | |kk].
       + destruct ch as [|b ch].
         { inversion H; subst. exists d. simpl. split; [reflexivity|]. auto. }
-        destruct (ok_take _ _ _ OK c d k (b :: ch) HR Hk ltac:(discriminate)) as (c1 & r1 & n & room & Et & Hn & Hpost).
-        rewrite Et in H.
+        assert (HG1 : G (d ++ b :: ch)).
+        { apply (okr_prefix _ _ _ _ _ OK _ (stream_of o1)). rewrite <- app_assoc. exact HG. }
+        destruct (okr_take _ _ _ _ _ OK c d (b :: ch) HR ltac:(discriminate) HG1) as (c1 & r1 & n & room & Et & Hn & Hpost).
+        rewrite <- Hk in Hpost. rewrite Et in H.
         pose proof (take_rest (b :: ch) n 0 o1 Hn) as [Hs Hsz]. cbv zeta in Hs, Hsz.
         set (o2 := if Nat.ltb n (length (b :: ch)) then TData (skipn n (b :: ch)) 0 :: o1 else o1) in *.
         assert (Hd : (d ++ firstn n (b :: ch)) ++ stream_of o2 = d ++ stream_of (TData (b :: ch) dt :: o1)).
@@ -112,7 +116,7 @@ Section Sequence.
         * destruct Hpost as [Hl HR1]. rewrite <- Hd.
           assert (IH : forall t0, rloop M mode fuel t0 c1 o2 (el + dt) = (c', e', o', r, el') ->
                               rloop_post ((d ++ firstn n (b :: ch)) ++ stream_of o2) k c' e' (stream_of o') r).
-          { intros t0 H0. eapply IHfuel; eauto. }
+          { intros t0 H0. eapply IHfuel; eauto. rewrite Hd. exact HG. }
           destruct mode.
           -- destruct t as [tmo|]; [|eapply IH; eauto].
              destruct (Nat.ltb 0 tmo); [eapply IH; eauto|].
@@ -135,13 +139,16 @@ Section Sequence.
       if leof st then d = s /\ k = length (spec s) else d ++ stream_of o = s.
 
   Lemma receive_inv : forall s t st o i st' o' r el,
-      Inv s st o i -> receive M mode t st o = (st', o', r, el) ->
+      G s -> Inv s st o i -> receive M mode t st o = (st', o', r, el) ->
       if is_delivered r then r = expected (spec s) i /\ Inv s st' o' (S i)
       else Inv s st' o' i.
   Proof.
-    intros s t st o i st' o' r el (d & k & HR & Hle & Hmin & Heof & Hs) H.
+    intros s t st o i st' o' r el HGs (d & k & HR & Hle & Hmin & Heof & Hs) H.
     unfold receive in H. destruct (mdrain M (lc st)) as [c1 r1] eqn:Ed.
-    pose proof (ok_drain _ _ _ OK _ _ _ _ _ HR Ed) as Hdr.
+    assert (HGd : G d).
+    { destruct (leof st); [destruct Hs; subst; exact HGs|].
+      apply (okr_prefix _ _ _ _ _ OK _ (stream_of o)). rewrite Hs. exact HGs. }
+    pose proof (okr_drain _ _ _ _ _ OK _ _ _ _ _ HGd HR Ed) as Hdr.
     assert (Hev : forall ev, ev <> RStop -> nth_error (spec d) k = Some ev -> R c1 d (S k) ->
                   (st', o', r) = ({| lc := c1; leof := leof st |}, o, of_nres ev) ->
                   is_delivered r = true /\ r = expected (spec s) i /\ Inv s st' o' (S i)).
@@ -157,18 +164,20 @@ Section Sequence.
       - unfold expected. rewrite (spec_prefix_nth _ _ _ _ Hn). reflexivity.
       - exists d, (S k). cbn [lc leof]. rewrite He. repeat split; auto; try lia. }
     destruct r1 as [p|e| |].
-    - destruct Hdr. edestruct (Hev (RPkt p)) as (A & B & D); eauto; [discriminate|inversion H; reflexivity|].
+    - destruct Hdr. edestruct (Hev (RPkt p)) as (A & B & DD); eauto; [discriminate|inversion H; reflexivity|].
       rewrite A. auto.
-    - destruct Hdr. edestruct (Hev (RErr e)) as (A & B & D); eauto; [discriminate|inversion H; reflexivity|].
+    - destruct Hdr. edestruct (Hev (RErr e)) as (A & B & DD); eauto; [discriminate|inversion H; reflexivity|].
       rewrite A. auto.
     - destruct Hdr as [Hk HR1]. destruct (leof st) eqn:He.
       + inversion H; subst st' o' r el. simpl. destruct Hs as [Hd Hk2]. split.
         * unfold expected. replace (nth_error (spec s) i) with (@None (nres P)); [reflexivity|].
           symmetry. apply nth_error_None. lia.
-        * exists s, k. cbn [lc leof]. subst d. repeat split; auto; lia.
+        * exists s, k. cbn [lc leof]. subst d. repeat split; auto; try lia.
+          rewrite Hk. apply (okr_D_R _ _ _ _ _ OK). exact HR1.
       + destruct (rloop M mode (S (oracle_size o)) t c1 o 0) as [[[[c2 e2] o2] r2] el2] eqn:El.
         inversion H; subst st' o' r el. clear H.
-        pose proof (rloop_inv _ _ _ _ _ _ _ _ _ _ _ _ (Nat.lt_succ_diag_r _) HR1 Hk El) as (d' & Hd' & Hpost).
+        assert (HGo : G (d ++ stream_of o)) by (rewrite Hs; exact HGs).
+        pose proof (rloop_inv _ _ _ _ _ _ _ _ _ _ _ _ (Nat.lt_succ_diag_r _) HR1 Hk HGo El) as (d' & Hd' & Hpost).
         assert (Hi : Nat.min i (length (spec (d ++ stream_of o))) = i).
         { destruct (Nat.lt_ge_cases (length (spec (d ++ stream_of o))) i) as [Hlt|]; [|lia].
           rewrite Hs in Hlt. apply Heof in Hlt. discriminate. }
@@ -181,20 +190,22 @@ Section Sequence.
           - assert (k < length (spec d')) by (apply nth_error_Some; congruence).
             pose proof (spec_prefix_len d' (stream_of o2)). rewrite Hd', Hs in *.
             exists d', (S k). cbn [lc leof]. repeat split; auto; try lia. }
-        assert (Hquiet : e2 = false -> R c2 d' k -> k = length (spec d') -> Inv s {| lc := c2; leof := e2 |} o2 k).
-        { intros -> HR2 Hk2. exists d', k. cbn [lc leof]. rewrite Hd'. repeat split; auto; try lia. }
+        assert (Hquiet : e2 = false -> D c2 d' -> k = length (spec d') -> Inv s {| lc := c2; leof := e2 |} o2 k).
+        { intros -> HR2 Hk2. exists d', k. cbn [lc leof]. rewrite Hd'. repeat split; auto; try lia.
+          rewrite Hk2. apply (okr_D_R _ _ _ _ _ OK). exact HR2. }
         destruct r2; cbn [is_delivered].
         * destruct Hpost as (He2 & ev & Hne & Er & Hn & HR2). rewrite Er. eapply Hevent; eauto.
         * destruct Hpost as (He2 & ev & Hne & Er & Hn & HR2). rewrite Er. eapply Hevent; eauto.
         * destruct Hpost as (-> & HR2 & Hk2). rewrite app_nil_r in Hd'. subst d'. split.
           -- unfold expected. replace (nth_error (spec s) k) with (@None (nres P)); [reflexivity|].
              symmetry. apply nth_error_None. rewrite <- Hs. lia.
-          -- exists (d ++ stream_of o), k. cbn [lc leof]. rewrite Hs in *. repeat split; auto; lia.
+          -- exists (d ++ stream_of o), k. cbn [lc leof]. rewrite Hs in *. repeat split; auto; try lia.
+             rewrite Hk2. apply (okr_D_R _ _ _ _ _ OK). exact HR2.
         * destruct Hpost as (He2 & HR2 & Hk2). auto.
         * destruct Hpost as (He2 & HR2 & Hk2). auto.
         * destruct Hpost as (He2 & ev & Hne & Er & Hn & HR2). destruct ev; discriminate.
         * destruct Hpost as (He2 & ev & Hne & Er & Hn & HR2). rewrite Er. eapply Hevent; eauto.
-    - destruct Hdr. edestruct (Hev RCrash) as (A & B & D); eauto; [discriminate|inversion H; reflexivity|].
+    - destruct Hdr. edestruct (Hev RCrash) as (A & B & DD); eauto; [discriminate|inversion H; reflexivity|].
       rewrite A. auto.
   Qed.
 
@@ -210,15 +221,15 @@ Section Sequence.
       let '(rs, st'', o'') := run_calls M mode st' o' ts in ((r, o') :: rs, st'', o'').
   Proof. reflexivity. Qed.
 
-  Lemma run_calls_seq : forall s ts st o i, Inv s st o i ->
+  Lemma run_calls_seq : forall s, G s -> forall ts st o i, Inv s st o i ->
       forall j r, nth_error (delivered (results (run_calls M mode st o ts))) j = Some r ->
                   r = expected (spec s) (i + j).
   Proof.
-    induction ts as [|t ts IH]; intros st o i HI j r Hj.
+    intros s HGs. induction ts as [|t ts IH]; intros st o i HI j r Hj.
     - destruct j; discriminate.
     - rewrite run_calls_cons in Hj.
       destruct (receive M mode t st o) as [[[st1 o1] r1] el1] eqn:Er.
-      pose proof (receive_inv _ _ _ _ _ _ _ _ _ HI Er) as Hinv.
+      pose proof (receive_inv _ _ _ _ _ _ _ _ _ HGs HI Er) as Hinv.
       specialize (IH st1 o1).
       destruct (run_calls M mode st1 o1 ts) as [[rs st2] o2] eqn:Ec.
       unfold results, delivered in Hj, IH. cbn [fst map filter] in Hj, IH.
@@ -229,14 +240,14 @@ Section Sequence.
       + apply (IH i Hinv j r Hj).
   Qed.
 
-  Lemma run_calls_inv : forall s ts st o i rs st' o',
+  Lemma run_calls_inv : forall s, G s -> forall ts st o i rs st' o',
       Inv s st o i -> run_calls M mode st o ts = (rs, st', o') -> exists i', Inv s st' o' i'.
   Proof.
-    induction ts as [|t ts IH]; intros st o i rs st' o' HI H.
+    intros s HGs. induction ts as [|t ts IH]; intros st o i rs st' o' HI H.
     - inversion H; subst. eauto.
     - rewrite run_calls_cons in H.
       destruct (receive M mode t st o) as [[[st1 o1] r1] el1] eqn:Er.
-      pose proof (receive_inv _ _ _ _ _ _ _ _ _ HI Er) as Hinv.
+      pose proof (receive_inv _ _ _ _ _ _ _ _ _ HGs HI Er) as Hinv.
       destruct (run_calls M mode st1 o1 ts) as [[rs2 st2] o2] eqn:Ec.
       inversion H; subst.
       destruct (is_delivered r1); [destruct Hinv|]; eapply IH; eauto.
@@ -272,25 +283,26 @@ Section Sequence.
     inversion H; subst. cbn. eapply rloop_aborted_latches; eauto.
   Qed.
 
-  Lemma sticky_step : forall s st o i, Inv s st o i -> leof st = true ->
+  Lemma sticky_step : forall s st o i, G s -> Inv s st o i -> leof st = true ->
       forall t o2, exists c', receive M mode t st o2 = ({| lc := c'; leof := true |}, o2, RecvAborted, 0) /\
                               Inv s {| lc := c'; leof := true |} o2 (S i).
   Proof.
-    intros s st o i (d & k & HR & Hle & Hmin & Heof & Hs) He t o2. rewrite He in Hs. destruct Hs as [Hd Hk].
-    unfold receive. destruct (mdrain M (lc st)) as [c1 r1] eqn:Ed.
-    pose proof (ok_drain _ _ _ OK _ _ _ _ _ HR Ed) as Hdr. subst d.
+    intros s st o i HGs (d & k & HR & Hle & Hmin & Heof & Hs) He t o2. rewrite He in Hs. destruct Hs as [Hd Hk].
+    unfold receive. destruct (mdrain M (lc st)) as [c1 r1] eqn:Ed. subst d.
+    pose proof (okr_drain _ _ _ _ _ OK _ _ _ _ _ HGs HR Ed) as Hdr.
     assert (Hnone : nth_error (spec s) k = None) by (apply nth_error_None; lia).
     destruct r1; try (destruct Hdr; congruence).
     rewrite He. exists c1. split; [reflexivity|].
-    destruct Hdr. exists s, k. cbn [lc leof]. repeat split; auto; lia.
+    destruct Hdr as [_ HD1]. exists s, k. cbn [lc leof]. repeat split; auto; try lia.
+    rewrite Hk. apply (okr_D_R _ _ _ _ _ OK). exact HD1.
   Qed.
 
-  Lemma sticky_calls : forall s ts st o i, Inv s st o i -> leof st = true ->
+  Lemma sticky_calls : forall s, G s -> forall ts st o i, Inv s st o i -> leof st = true ->
       forall o2, exists st', run_calls M mode st o2 ts = (map (fun _ => (RecvAborted, o2)) ts, st', o2).
   Proof.
-    induction ts as [|t ts IH]; intros st o i HI He o2.
+    intros s HGs. induction ts as [|t ts IH]; intros st o i HI He o2.
     - eexists; reflexivity.
-    - destruct (sticky_step _ _ _ _ HI He t o2) as (c' & Er & HI2).
+    - destruct (sticky_step _ _ _ _ HGs HI He t o2) as (c' & Er & HI2).
       destruct (IH _ _ _ HI2 eq_refl o2) as (st' & Ec).
       exists st'. rewrite run_calls_cons, Er, Ec. reflexivity.
   Qed.
